@@ -68,6 +68,9 @@ class TcpRpc::Impl : Connection {
 
     map<SessionToken, TcpServer::ConnToken> session_to_client_;
     map<TcpServer::ConnToken, SessionToken> client_to_session_;
+
+    //! disconnect tasks waiting in the loop: they use this object, ~Impl() cancels them
+    map<SessionToken, Loop::RunId> end_session_tasks_;
 };
 
 }
